@@ -46,6 +46,21 @@ def run(ck):
         if k % 2:
             docgen.with_inline_classes(d, ck.rng)      # inline rules meeting classes on components and in author HTML
         docs.append(("gen", docgen.to_mjml(d)))
+    # placements and contents that generic documents avoid or rarely produce: children a container filters out (mj-raw among navbar links,
+    # among social / accordion / carousel children), labels with inline elements whose attributes carry escapes, attribute-heavy elements
+    wrapc = lambda x: "<mjml><mj-body><mj-section><mj-column>%s</mj-column></mj-section></mj-body></mjml>" % x
+    RAWK = "<mj-raw><!-- r --><p>raw</p></mj-raw>"
+    docs += [("special", wrapc(x)) for x in (
+        '<mj-navbar><mj-navbar-link href="/a">A</mj-navbar-link>%s<mj-navbar-link href="/b">B</mj-navbar-link></mj-navbar>' % RAWK,
+        '<mj-navbar hamburger="hamburger">%s<mj-navbar-link href="/a">A</mj-navbar-link>%s</mj-navbar>' % (RAWK, RAWK),
+        '<mj-social><mj-social-element name="facebook">F</mj-social-element>%s<mj-social-element name="github" href="https://x/?a=1&amp;b=2">G <img src="https://x/i.png?a=1&amp;b=2" alt="i &amp; j"/></mj-social-element></mj-social>' % RAWK,
+        '<mj-accordion>%s<mj-accordion-element>%s<mj-accordion-title>T &amp; t</mj-accordion-title><mj-accordion-text><a href="https://x/?a=1&amp;b=2">l</a></mj-accordion-text></mj-accordion-element></mj-accordion>' % (RAWK, RAWK),
+        '<mj-carousel><mj-carousel-image src="https://x/a.png"/>%s<mj-carousel-image src="https://x/b.png?a=1&amp;b=2"/></mj-carousel>' % RAWK,
+        '<mj-button href="https://x/?a=1&amp;b=2"><span title="Terms &amp; conditions apply" data-x="&lt;&gt;&quot;">Read <b class="k">more</b> &amp; more</span></mj-button>',
+        '<mj-text><a href="https://x/?a=1&amp;b=2" title="a &amp; b">l</a><br/><img src="https://x/i.png" alt="&quot;q&quot;"/></mj-text>',
+        '<mj-table><tr><td title="a &amp; b" class="k">c &amp; d</td></tr></mj-table>',
+        '<mj-image src="https://x/a.png?a=1&amp;b=2" href="https://x/?a=1&amp;b=2" alt="a &amp; b" title="t" width="100px" height="50px" padding="1px" border="1px solid #000" border-radius="2px" align="left" target="_self" rel="noopener"/>',
+    )]
     failing = explore(ck, hb, docs)
     ck.sample({"document": docs[-1][1][:300], "paths": ["RenderFromAST", "RenderFromAST(debug)", "NewFromAST+RenderComponentString x2", "2 concurrent RenderFromAST", "cached RenderWithAST x3"]})
     ck.cov["rule"] = ("fixtures (quick: every third, thorough: all 207) + generated full-grammar documents; for each: parse once, deep "
